@@ -78,7 +78,7 @@ def c14 (toks : List String) : String :=
   | [op, p, w] =>
     match parsePayload p, parseWSched w with
     | some p, some w =>
-      let x := op == "x224_write"
+      let x := op == "x224_write" || op == "x224_write_sd"   -- `_sd`: after shutdown() on a raw stream, which changes nothing
       let r := if x then X224.write p ⟨[], w⟩ else Tpkt.write p ⟨[], w⟩
       showW r ++ "\t" ++ specWrite x p w
     | _, _ => "bad-case"
